@@ -67,7 +67,7 @@ fn main_c11(tier: &str, seed: u64, replay: Option<&str>) -> i32 {
         if oracle == "M-memory" {
             let args: Vec<String> = serde_json::from_value(v["mem_args"].clone()).unwrap_or_default();
             let n = v["mem_n"].as_u64().unwrap_or(500) as usize;
-            let (viol, _) = c11::memory_check(&args, n, v["seed"].as_u64().unwrap_or(1), v["mem_long_lines"].as_bool().unwrap_or(false), v["mem_many_files"].as_bool().unwrap_or(false), v["mem_wrap_shapes"].as_bool().unwrap_or(false));
+            let (viol, _) = c11::memory_check(&args, n, v["seed"].as_u64().unwrap_or(1), v["mem_long_lines"].as_bool().unwrap_or(false), v["mem_many_files"].as_bool().unwrap_or(false), v["mem_wrap_shapes"].as_bool().unwrap_or(false), v["mem_many_commits"].as_bool().unwrap_or(false));
             return match viol {
                 Some(x) => {
                     println!("VIOLATION property=C11 replay={}", path);
@@ -137,14 +137,15 @@ fn main_c11(tier: &str, seed: u64, replay: Option<&str>) -> i32 {
     ];
     // every configuration with ordinary lines and with over-long lines
     // every configuration with ordinary lines, with over-long lines, and with one file per hunk
-    let mem: Vec<(Option<Violation>, serde_json::Value)> = par_map(if worddiff { 0 } else { mem_cfgs.len() * 4 }, &|j| {
-        let i = j / 4;
-        let long = j % 4 == 1;
-        let many = j % 4 == 2;
-        let wrap = j % 4 == 3;
+    let mem: Vec<(Option<Violation>, serde_json::Value)> = par_map(if worddiff { 0 } else { mem_cfgs.len() * 5 }, &|j| {
+        let i = j / 5;
+        let long = j % 5 == 1;
+        let many = j % 5 == 2;
+        let wrap = j % 5 == 3;
+        let commits = j % 5 == 4;
         let a = mem_cfgs[i].clone();
         let nn = if long { mem_n / 10 } else if wrap { mem_n / 3 } else { mem_n };
-        sim::on_fresh_thread(simcore::rng::mix(seed, &[simcore::rng::tag("C11-mem"), j as u64]), move || c11::memory_check(&a, nn.max(50), seed, long, many, wrap))
+        sim::on_fresh_thread(simcore::rng::mix(seed, &[simcore::rng::tag("C11-mem"), j as u64]), move || c11::memory_check(&a, nn.max(50), seed, long, many, wrap, commits))
     });
 
     let known = load_known();
@@ -219,14 +220,14 @@ fn main_c11(tier: &str, seed: u64, replay: Option<&str>) -> i32 {
     }
     let mut mem_samples = Vec::new();
     for (j, (v, info)) in mem.iter().enumerate() {
-        let i = j / 4;
+        let i = j / 5;
         mem_samples.push(info.clone());
         if let Some(x) = v {
             if let Some(k) = known.matches("C11", x) {
                 known_hit.entry(k.signature.clone()).or_insert((k.what.clone(), 0)).1 += 1;
                 continue;
             }
-            let path = write_replay("C11", &format!("M-memory-{}", j), &json!({"property": "C11", "engine": "E2-inproc", "seed": seed, "oracle": "M-memory", "signature": x.signature, "message": x.message, "mem_args": mem_cfgs[i], "mem_n": if j % 4 == 1 { (mem_n / 10).max(50) } else if j % 4 == 3 { (mem_n / 3).max(50) } else { mem_n }, "mem_long_lines": j % 4 == 1, "mem_many_files": j % 4 == 2, "mem_wrap_shapes": j % 4 == 3}));
+            let path = write_replay("C11", &format!("M-memory-{}", j), &json!({"property": "C11", "engine": "E2-inproc", "seed": seed, "oracle": "M-memory", "signature": x.signature, "message": x.message, "mem_args": mem_cfgs[i], "mem_n": if j % 5 == 1 { (mem_n / 10).max(50) } else if j % 5 == 3 { (mem_n / 3).max(50) } else { mem_n }, "mem_long_lines": j % 5 == 1, "mem_many_files": j % 5 == 2, "mem_wrap_shapes": j % 5 == 3, "mem_many_commits": j % 5 == 4}));
             println!("VIOLATION property=C11 replay={}", path.display());
             println!("  oracle={} {}", x.oracle, x.message);
             exit = 1;
